@@ -50,13 +50,18 @@ pub fn run(scenario: &'static str) {
 	match scenario {
 		"vis" =>
 			if shuttle::rand::thread_rng().gen_ratio(2, 5) {
-				visx(false)
+				visx(false, false)
 			} else {
 				pipe(Mode::Vis)
 			},
-		"iter" => visx(true),
+		"iter" => visx(true, false),
 		"ioerr" => ioerr_threads(),
-		"live" => pipe(Mode::Live),
+		"live" =>
+			if shuttle::rand::thread_rng().gen_ratio(1, 4) {
+				visx(false, true)
+			} else {
+				pipe(Mode::Live)
+			},
 		"drop" => pipe(Mode::Drop),
 		"order" => pipe(Mode::Order),
 		"lock" => lock_scenario(),
@@ -74,6 +79,11 @@ enum Mode {
 	/// clause of C12 (tables flushed before a log is reclaimed) under thread interleavings.
 	Order,
 }
+
+/// Size at which the flush worker rotates the log file when logs are not always flushed. Production:
+/// 64 MiB against a limit of 128 MiB of logged, unapplied bytes; the verification build's limit is
+/// 1 MiB (hook H4), and the rotation size keeps the same ratio.
+const MIN_LOG: u64 = 512 * 1024;
 
 const VALUE_LENS: [usize; 8] = [9, 20, 30, 33, 60, 200, 1000, 5000];
 
@@ -175,7 +185,7 @@ fn pipe(mode: Mode) {
 		Ok(db) => Arc::new(db),
 		Err(e) => panic!("VIOL C15 open-failed: {e}"),
 	};
-	let min_log: u64 = if always_flush { 0 } else { 64 * 1024 * 1024 };
+	let min_log: u64 = if always_flush { 0 } else { MIN_LOG };
 	let stamp = Arc::new(AtomicU64::new(1));
 	let hist = Arc::new(Mutex::new(Hist { txs: Vec::new() }));
 	// plan transactions up front (deterministic from shuttle::rand)
@@ -483,7 +493,13 @@ fn lock_scenario() {
 				if dropping.load(Ordering::SeqCst) > 0 {
 					probe("open_attempted_while_another_handle_was_being_dropped");
 				}
-				match Db::open(&o) {
+				// a read-only open takes the same exclusive lock (it replays and reclaims logs)
+				let read_only = rng.gen_ratio(1, 3);
+				let opened_db = if read_only { Db::open_read_only(&o) } else { Db::open(&o) };
+				if read_only {
+					probe("read_only_open_attempted");
+				}
+				match opened_db {
 					Ok(db) => {
 						let n = live.fetch_add(1, Ordering::SeqCst) + 1;
 						if n != 1 {
@@ -1038,23 +1054,26 @@ impl HistX {
 	}
 }
 
-fn visx(iter_mode: bool) {
+fn visx(iter_mode: bool, heavy: bool) {
 	let prop = if iter_mode { "C04" } else { "C05" };
 	let dir = fresh_dir();
 	let mut rng = shuttle::rand::thread_rng();
 	let col_kind: u8 = if iter_mode { 1 } else { rng.gen_range(0..3) };
 	let always_flush = rng.gen_bool(0.7);
 	let nkeys: u8 = rng.gen_range(2..7);
-	let ncommitters: usize = rng.gen_range(1..4);
+	// heavy (C15): several committers with values of tens to hundreds of KiB, so that the (verification
+	// build's) limits on queued commits and on logged-but-unapplied bytes are crossed in both directions
+	let ncommitters: usize = if heavy { rng.gen_range(2..5) } else { rng.gen_range(1..4) };
 	let removals = rng.gen_bool(0.6);
-	let ntx_per: usize = rng.gen_range(1..(if ncommitters == 1 { 9 } else { 5 }));
-	let nreaders: usize = rng.gen_range(1..4);
+	let ntx_per: usize = if heavy { rng.gen_range(3..8) } else { rng.gen_range(1..(if ncommitters == 1 { 9 } else { 5 })) };
+	let nreaders: usize = if heavy { rng.gen_range(0..2) } else { rng.gen_range(1..4) };
 	let reads_per: usize = rng.gen_range(2..12);
 	let sync = rng.gen_bool(0.5);
 	crate::order::arm(sync);
 	loom::stall::clear();
-	if rng.gen_bool(0.4) {
-		let role = rng.gen_range(0..6u32);
+	if rng.gen_bool(if heavy { 0.7 } else { 0.4 }) {
+		// heavy: mostly the commit worker (0) or the log worker (2) falls behind
+		let role = if heavy && rng.gen_bool(0.7) { *[0u32, 2].get(rng.gen_range(0..2usize)).unwrap() } else { rng.gen_range(0..6u32) };
 		let at = if rng.gen_bool(0.5) { rng.gen_range(1..60u32) } else { rng.gen_range(1..600u32) };
 		let len = *[30u32, 200, 1000, 4000].get(rng.gen_range(0..4usize)).unwrap();
 		loom::stall::plan(role, at, len);
@@ -1072,7 +1091,7 @@ fn visx(iter_mode: bool) {
 		Ok(db) => Arc::new(db),
 		Err(e) => panic!("VIOL C15 open-failed: {e}"),
 	};
-	let min_log: u64 = if always_flush { 0 } else { 64 * 1024 * 1024 };
+	let min_log: u64 = if always_flush { 0 } else { MIN_LOG };
 	let stamp = Arc::new(AtomicU64::new(1));
 	// plan: transaction ids are fixed up front: committer c's j-th transaction is 1 + c * ntx_per + j
 	let ntx = ncommitters * ntx_per;
@@ -1085,7 +1104,9 @@ fn visx(iter_mode: bool) {
 			let i = rng.gen_range(0..keys.len());
 			let k = keys.remove(i);
 			let rem = removals && rng.gen_ratio(1, 3);
-			w.push((k, if rem { None } else { Some(VALUE_LENS[rng.gen_range(0..VALUE_LENS.len())]) }));
+			const HEAVY_LENS: [usize; 6] = [20, 40_000, 90_000, 90_000, 200_000, 400_000];
+			let len = if heavy { HEAVY_LENS[rng.gen_range(0..HEAVY_LENS.len())] } else { VALUE_LENS[rng.gen_range(0..VALUE_LENS.len())] };
+			w.push((k, if rem { None } else { Some(len) }));
 		}
 		txs.push(TxX { inv: 0, ret: u64::MAX, writes: w });
 	}
@@ -1298,7 +1319,27 @@ fn visx(iter_mode: bool) {
 			Err(e) => std::panic::resume_unwind(e),
 		}
 	}
-	if rng.gen_bool(0.5) {
+	if heavy {
+		// bounded liveness: without further client activity every accepted commit gets logged (and,
+		// when logs are always flushed, applied)
+		let mut spins = 0u64;
+		loop {
+			let c = db.verif_pipeline_counts();
+			if c.0 == 0 && (!always_flush || (!c.2 && c.4 <= 0)) {
+				break
+			}
+			if db.verif_has_bg_err() {
+				panic!("VIOL C15 background-error: a worker stored an error without any injected fault");
+			}
+			spins += 1;
+			thread::yield_now();
+			if spins > 100_000 {
+				panic!("VIOL C15 no-progress: pipeline not drained after {spins} yields of the idle clients (queued {}, files to read {}, logged bytes {})", c.0, c.2, c.4);
+			}
+		}
+		probe("drained_without_client_activity");
+		probe("heavy_several_committers");
+	} else if rng.gen_bool(0.5) {
 		thread::yield_now();
 	}
 	if loom::stall::FIRED.swap(0, Ordering::Relaxed) > 0 {
@@ -1417,7 +1458,7 @@ fn ioerr_threads() {
 		Ok(db) => Arc::new(db),
 		Err(e) => panic!("VIOL C15 open-failed: {e}"),
 	};
-	let min_log: u64 = if always_flush { 0 } else { 64 * 1024 * 1024 };
+	let min_log: u64 = if always_flush { 0 } else { MIN_LOG };
 	// record ids continue from what the (empty) database reports as enacted at open
 	let enacted_at_open = db.verif_pipeline_counts().5 as usize;
 	let stamp = Arc::new(AtomicU64::new(1));
